@@ -35,10 +35,16 @@ Prim(vs) == IF vs = <<>> THEN Nil ELSE vs[1]      \* primary value
 
 RECURSIVE LookupF(_,_,_)
 LookupF(vars, n, i) == IF i > Len(vars) THEN 0 ELSE IF vars[i].n = n THEN i ELSE LookupF(vars, n, i+1)
+\* The frame that holds variable n, seen from frame fid.  Lexical scoping: the frame itself, then its parent (the frame the
+\* binding form or the closure was made in).  A frame made for a function call also records the frame of the call (dyn); it is
+\* 0 unless the machine runs with the named deviation "dynscope" (m.dev is the set of named deviations of open findings the
+\* machine runs with, empty for the language definition; open finding C01-F4: slip looks a free variable of a function
+\* body up in the bindings of the CALLER first and only then in the bindings the closure captured).
 RECURSIVE FindFrame(_,_,_)
 FindFrame(heap, fid, n) == IF fid = 0 THEN 0
                            ELSE IF LookupF(heap[fid].vars, n, 1) > 0 THEN fid
-                           ELSE FindFrame(heap, heap[fid].parent, n)
+                           ELSE LET d == FindFrame(heap, heap[fid].dyn, n) IN
+                                IF d > 0 THEN d ELSE FindFrame(heap, heap[fid].parent, n)
 Get(heap, fid, n) == LET f == FindFrame(heap, fid, n) IN
                      IF f = 0 THEN [k |-> "unbound"] ELSE heap[f].vars[LookupF(heap[f].vars, n, 1)].v
 Set(heap, fid, n, v) == LET f == FindFrame(heap, fid, n) IN
@@ -63,7 +69,9 @@ Ev(m, node, env) == [m EXCEPT !.mode = "eval", !.node = node, !.env = env]
 Push(m, fr) == [m EXCEPT !.kont = <<fr>> \o m.kont]
 Pop(m) == [m EXCEPT !.kont = Tail(m.kont)]
 Body(m, forms, env) == Ev(m, [k |-> "progn", es |-> forms], env)
-NewFrame(m, parent, vs) == LET h2 == Append(m.heap, [parent |-> parent, vars |-> vs]) IN [m EXCEPT !.heap = h2]
+NewFrame(m, parent, vs) == LET h2 == Append(m.heap, [parent |-> parent, vars |-> vs, dyn |-> 0]) IN [m EXCEPT !.heap = h2]
+\* the frame of a function call made from frame `caller`
+CallFrame(m, parent, vs, caller) == LET h2 == Append(m.heap, [parent |-> parent, vars |-> vs, dyn |-> IF "dynscope" \in m.dev THEN caller ELSE 0]) IN [m EXCEPT !.heap = h2]
 Top(m) == Len(m.heap)                             \* id of the frame NewFrame just made
 Bindings(ps, vals) == [j \in 1..Len(ps) |-> [n |-> ps[j], v |-> IF j <= Len(vals) THEN vals[j] ELSE Nil]]
 Exit(m, kind, target, tag, v) == [m EXCEPT !.mode = "exit", !.ex = [kind |-> kind, target |-> target, tag |-> tag, val |-> v]]
@@ -86,15 +94,19 @@ IsTag(e) == \/ e.k = "var"
             \/ e.k = "lit" /\ e.v.k \in {"int", "nil", "t"} /\ (("q" \in DOMAIN e) => e.q = 0)
 Stmts(body) == SelectSeq(body, LAMBDA e : ~IsTag(e))
 TagStmt(e) == IF IsTag(e) THEN [k |-> "lit", v |-> Nil] ELSE e          \* a statement of a tagbody that is itself a tag does nothing
+RECURSIVE Tails(_)
+Tails(es) == IF es = <<>> THEN <<>> ELSE <<ListV(es)>> \o Tails(Tail(es))
+RECURSIVE Flat(_)
+Flat(ls) == IF ls = <<>> THEN <<>> ELSE Elts(ls[1]) \o Flat(Tail(ls))
 RECURSIVE SumOf(_)
 SumOf(args) == IF args = <<>> THEN 0 ELSE args[1].v + SumOf(Tail(args))
 \* applying a function value to argument values: a closure or a named function
-Apply(m, f, args) ==
-  IF f.k = "clo" THEN Body(Push(NewFrame(m, f.env, Bindings(f.ps, args)), [k |-> "fnbody"]), f.body, Len(m.heap) + 1)
+Apply(m, f, args, caller) ==
+  IF f.k = "clo" THEN Body(Push(CallFrame(m, f.env, Bindings(f.ps, args), caller), [k |-> "fnbody"]), f.body, Len(m.heap) + 1)
   ELSE IF f.k = "fn" /\ FindDef(m.defs, f.name, 1) > 0
        THEN LET d == m.defs[FindDef(m.defs, f.name, 1)] IN
-            Body(Push(NewFrame(m, 1, Bindings(d.ps, args)), [k |-> "fnbody"]), d.body, Len(m.heap) + 1)
-  ELSE IF f.k = "fn" /\ f.name = "+" THEN Ret(m, IntV(SumOf(args)))
+            Body(Push(CallFrame(m, 1, Bindings(d.ps, args), caller), [k |-> "fnbody"]), d.body, Len(m.heap) + 1)
+  ELSE IF f.k = "fn" /\ f.name = "+" THEN (IF \E j \in 1..Len(args) : ~IsInt(args[j]) THEN Err(m, "type-error") ELSE Ret(m, IntV(SumOf(args))))
   ELSE Err(m, "undefined-function")
 
 StepEval(m) ==
@@ -149,9 +161,34 @@ StepEval(m) ==
     [] n.k = "error" -> Err(m, n.class)
     [] n.k = "ignerr" -> Body(Push(m, [k |-> "ignerr"]), n.body, m.env)
     [] n.k = "fcall" -> Ev(Push(m, [k |-> "fc", args |-> n.args, i |-> 0, f |-> Nil, acc |-> <<>>, spread |-> n.spread, env |-> m.env]), n.f, m.env)
-    [] n.k = "call" -> IF Len(n.args) = 0 THEN Apply(m, [k |-> "fn", name |-> n.f], <<>>)
+    [] n.k = "call" -> IF Len(n.args) = 0 THEN Apply(m, [k |-> "fn", name |-> n.f], <<>>, m.env)
                        ELSE Ev(Push(m, [k |-> "call", f |-> n.f, args |-> n.args, i |-> 1, acc |-> <<>>, env |-> m.env]), n.args[1], m.env)
-    [] n.k = "mapcar" -> Ev(Push(m, [k |-> "map1", l |-> n.l, env |-> m.env]), n.f, m.env)
+    [] n.k \in {"mapcar", "mapc", "mapcan", "maplist"} -> Ev(Push(m, [k |-> "map1", op |-> n.k, l |-> n.l, env |-> m.env]), n.f, m.env)
+    \* (psetq a e1 b e2 ...): all the forms are evaluated, then all the variables assigned; the value is nil
+    [] n.k = "psetq" -> IF Len(n.ps) = 0 THEN Ret(m, Nil)
+                        ELSE Ev(Push(m, [k |-> "psetq", ps |-> n.ps, i |-> 1, acc |-> <<>>, env |-> m.env]), n.ps[1].e, m.env)
+    [] n.k = "mvsetq" -> Ev(Push(m, [k |-> "mvsetq", vars |-> n.vars, env |-> m.env]), n.e, m.env)
+    [] n.k = "mvlist" -> Ev(Push(m, [k |-> "mvlist"]), n.e, m.env)
+    [] n.k = "nthv" -> Ev(Push(m, [k |-> "nthv", i |-> n.i]), n.e, m.env)
+    [] n.k = "mvprog1" -> Ev(Push(m, [k |-> "mvp1a", rest |-> Tail(n.es), env |-> m.env]), n.es[1], m.env)
+    \* (prog2 a b c ...) is (progn a (prog1 b c ...))
+    [] n.k = "prog2" -> Ev(m, [k |-> "progn", es |-> <<n.es[1], [k |-> "prog1", es |-> Tail(n.es)]>>], m.env)
+    \* (multiple-value-call f form ...): all the values of all the forms are the arguments
+    [] n.k = "mvcall" -> Ev(Push(m, [k |-> "mvc", args |-> n.args, i |-> 0, f |-> Nil, acc |-> <<>>, env |-> m.env]), n.f, m.env)
+    \* (prog / prog* (bindings) tag-or-statement ...) is a block named nil around a let / let* around a tagbody
+    [] n.k = "prog" -> Ev(m, [k |-> "block", name |-> "nil",
+                               body |-> <<[k |-> IF n.star THEN "letx" ELSE "let", bs |-> n.bs, body |-> <<[k |-> "tagbody", stmts |-> n.stmts]>>]>>], m.env)
+    \* (loop form ...): the forms again and again inside a block named nil
+    [] n.k = "sloop" -> Body(Push(Push([m EXCEPT !.nid = m.nid + 1], [k |-> "block", name |-> "nil", id |-> m.nid]), [k |-> "sloop", body |-> n.body, env |-> m.env]), n.body, m.env)
+    \* (recover var on-recover form ...): the forms; when one of them signals, on-recover with var bound (to a description of the condition)
+    [] n.k = "recover" -> Body(Push(m, [k |-> "recover", var |-> n.var, on |-> n.on, env |-> m.env]), n.body, m.env)
+    \* (incf v d) / (decf v d): the variable is read after the delta form has been evaluated
+    [] n.k \in {"incf", "decf"} -> Ev(Push(m, [k |-> "incf", n |-> n.n, sign |-> IF n.k = "incf" THEN 1 ELSE -1, env |-> m.env]), n.e, m.env)
+    [] n.k = "push" -> Ev(Push(m, [k |-> "push", n |-> n.n, env |-> m.env]), n.e, m.env)
+    [] n.k = "pop" -> LET v == Get(m.heap, m.env, n.n)  es == Elts(v) IN
+                      IF v.k = "unbound" THEN Err(m, "unbound-variable")
+                      ELSE IF v.k \notin {"nil", "list"} THEN Err(m, "type-error")
+                      ELSE Ret([m EXCEPT !.heap = Set(m.heap, m.env, n.n, IF Len(es) <= 1 THEN Nil ELSE ListV(Tail(es)))], IF es = <<>> THEN Nil ELSE es[1])
     [] n.k = "dolist" -> Ev(Push(m, [k |-> "dolist0", var |-> n.var, res |-> n.res, body |-> n.body, env |-> m.env]), n.l, m.env)
     [] n.k = "dotimes" -> Ev(Push(m, [k |-> "dotimes0", var |-> n.var, res |-> n.res, body |-> n.body, env |-> m.env]), n.c, m.env)
     [] n.k = "do" ->
@@ -187,7 +224,7 @@ StepRet(m) ==
                           ELSE Ev(Push(m1, [k |-> "prog1b", keep |-> v, rest |-> Tail(fr.rest), env |-> fr.env]), fr.rest[1], fr.env)
     [] fr.k = "prog1b" -> IF Len(fr.rest) = 0 THEN Ret(m1, fr.keep)
                           ELSE Ev(Push(m1, [fr EXCEPT !.rest = Tail(fr.rest)]), fr.rest[1], fr.env)
-    [] fr.k = "and" -> IF ~IsTrue(v) THEN Ret(m1, v) ELSE IF Len(fr.rest) = 0 THEN RetVs(m1, m.val)
+    [] fr.k = "and" -> IF Len(fr.rest) = 0 THEN RetVs(m1, m.val) ELSE IF ~IsTrue(v) THEN Ret(m1, Nil)      \* the last form gives all its values
                        ELSE Ev(Push(m1, [fr EXCEPT !.rest = Tail(fr.rest)]), fr.rest[1], fr.env)
     [] fr.k = "or" -> IF Len(fr.rest) = 0 THEN RetVs(m1, m.val) ELSE IF IsTrue(v) THEN Ret(m1, v)
                       ELSE Ev(Push(m1, [fr EXCEPT !.rest = Tail(fr.rest)]), fr.rest[1], fr.env)
@@ -250,18 +287,55 @@ StepRet(m) ==
                           acc == IF fr.i = 0 THEN <<>> ELSE Append(fr.acc, v) IN
                       IF fr.i = Len(fr.args)
                       THEN \* apply spreads its last argument
-                           Apply(m1, f, IF fr.spread /\ acc # <<>> THEN SubSeq(acc, 1, Len(acc) - 1) \o Elts(acc[Len(acc)]) ELSE acc)
+                           Apply(m1, f, IF fr.spread /\ acc # <<>> THEN SubSeq(acc, 1, Len(acc) - 1) \o Elts(acc[Len(acc)]) ELSE acc, fr.env)
                       ELSE Ev(Push(m1, [fr EXCEPT !.i = fr.i + 1, !.f = f, !.acc = acc]), fr.args[fr.i+1], fr.env)
     [] fr.k = "call" -> LET acc == Append(fr.acc, v) IN
-                        IF fr.i = Len(fr.args) THEN Apply(m1, [k |-> "fn", name |-> fr.f], acc)
+                        IF fr.i = Len(fr.args) THEN Apply(m1, [k |-> "fn", name |-> fr.f], acc, fr.env)
                         ELSE Ev(Push(m1, [fr EXCEPT !.i = fr.i + 1, !.acc = acc]), fr.args[fr.i+1], fr.env)
-    [] fr.k = "map1" -> Ev(Push(m1, [k |-> "map2", f |-> v]), fr.l, fr.env)
-    [] fr.k = "map2" -> LET es == Elts(v) IN
+    [] fr.k = "map1" -> Ev(Push(m1, [k |-> "map2", op |-> fr.op, f |-> v, env |-> fr.env]), fr.l, fr.env)
+    \* mapcar / mapc / mapcan call the function on the elements, maplist on the list and its tails
+    [] fr.k = "map2" -> LET es == IF fr.op = "maplist" THEN Tails(Elts(v)) ELSE Elts(v) IN
                         IF es = <<>> THEN Ret(m1, Nil)
-                        ELSE Apply(Push(m1, [k |-> "map3", f |-> fr.f, rest |-> Tail(es), acc |-> <<>>]), fr.f, <<es[1]>>)
+                        ELSE Apply(Push(m1, [k |-> "map3", op |-> fr.op, orig |-> v, f |-> fr.f, rest |-> Tail(es), acc |-> <<>>, env |-> fr.env]), fr.f, <<es[1]>>, fr.env)
     [] fr.k = "map3" -> LET acc == Append(fr.acc, v) IN
-                        IF fr.rest = <<>> THEN Ret(m1, ListV(acc))
-                        ELSE Apply(Push(m1, [fr EXCEPT !.rest = Tail(fr.rest), !.acc = acc]), fr.f, <<fr.rest[1]>>)
+                        IF fr.rest = <<>>
+                        THEN (CASE fr.op = "mapc" -> Ret(m1, fr.orig)                      \* the list itself
+                                [] fr.op = "mapcan" -> IF \E j \in 1..Len(acc) : acc[j].k \notin {"nil", "list"} THEN Err(m1, "type-error")
+                                                       ELSE Ret(m1, ListV(Flat(acc)))     \* the results concatenated
+                                [] OTHER -> Ret(m1, ListV(acc)))
+                        ELSE Apply(Push(m1, [fr EXCEPT !.rest = Tail(fr.rest), !.acc = acc]), fr.f, <<fr.rest[1]>>, fr.env)
+    [] fr.k = "psetq" -> LET acc == Append(fr.acc, v) IN
+                         IF fr.i = Len(fr.ps)
+                         THEN LET RECURSIVE SetP(_, _)
+                                  SetP(h, j) == IF j > Len(fr.ps) THEN h ELSE SetP(Set(h, fr.env, fr.ps[j].n, acc[j]), j + 1) IN
+                              \* named deviation "psetq-value" (open finding C01-F5): the value of the last form instead of nil
+                              Ret([m1 EXCEPT !.heap = SetP(m.heap, 1)], IF "psetq-value" \in m.dev THEN acc[Len(acc)] ELSE Nil)
+                         ELSE Ev(Push(m1, [fr EXCEPT !.i = fr.i + 1, !.acc = acc]), fr.ps[fr.i + 1].e, fr.env)
+    \* (multiple-value-setq (a b) form): variables without a value get nil; the value is the primary value
+    [] fr.k = "mvsetq" -> LET RECURSIVE SetV(_, _)
+                              SetV(h, j) == IF j > Len(fr.vars) THEN h
+                                            ELSE SetV(Set(h, fr.env, fr.vars[j], IF j <= Len(m.val) THEN m.val[j] ELSE Nil), j + 1) IN
+                          Ret([m1 EXCEPT !.heap = SetV(m.heap, 1)], v)
+    [] fr.k = "mvlist" -> Ret(m1, ListV(m.val))
+    [] fr.k = "nthv" -> Ret(m1, IF fr.i + 1 <= Len(m.val) THEN m.val[fr.i + 1] ELSE Nil)
+    [] fr.k = "mvp1a" -> IF Len(fr.rest) = 0 THEN RetVs(m1, m.val)
+                         ELSE Ev(Push(m1, [k |-> "mvp1b", keep |-> m.val, rest |-> Tail(fr.rest), env |-> fr.env]), fr.rest[1], fr.env)
+    [] fr.k = "mvp1b" -> IF Len(fr.rest) = 0 THEN RetVs(m1, fr.keep)
+                         ELSE Ev(Push(m1, [fr EXCEPT !.rest = Tail(fr.rest)]), fr.rest[1], fr.env)
+    [] fr.k = "mvc" -> LET f == IF fr.i = 0 THEN v ELSE fr.f
+                           acc == IF fr.i = 0 THEN <<>> ELSE fr.acc \o m.val IN
+                       IF fr.i = Len(fr.args) THEN Apply(m1, f, acc, fr.env)
+                       ELSE Ev(Push(m1, [fr EXCEPT !.i = fr.i + 1, !.f = f, !.acc = acc]), fr.args[fr.i+1], fr.env)
+    [] fr.k = "sloop" -> Body(Push(m1, fr), fr.body, fr.env)
+    [] fr.k = "recover" -> RetVs(m1, m.val)
+    [] fr.k = "incf" -> LET cur == Get(m.heap, fr.env, fr.n) IN
+                        IF cur.k = "unbound" THEN Err(m1, "unbound-variable")
+                        ELSE IF ~(IsInt(cur) /\ IsInt(v)) THEN Err(m1, "type-error")
+                        ELSE Ret([m1 EXCEPT !.heap = Set(m.heap, fr.env, fr.n, IntV(cur.v + fr.sign * v.v))], IntV(cur.v + fr.sign * v.v))
+    [] fr.k = "push" -> LET cur == Get(m.heap, fr.env, fr.n) IN
+                        IF cur.k = "unbound" THEN Err(m1, "unbound-variable")
+                        ELSE IF cur.k \notin {"nil", "list"} THEN Err(m1, "type-error")
+                        ELSE Ret([m1 EXCEPT !.heap = Set(m.heap, fr.env, fr.n, ListV(<<v>> \o Elts(cur)))], ListV(<<v>> \o Elts(cur)))
     [] fr.k = "dolist0" -> LET blk == [k |-> "block", name |-> "nil", id |-> m.nid] IN
                            LoopNext(Push([m1 EXCEPT !.nid = m.nid + 1], blk),
                                     [k |-> "loop", var |-> fr.var, items |-> Elts(v), last |-> Nil, res |-> fr.res, body |-> fr.body, env |-> fr.env])
@@ -309,6 +383,8 @@ StepExit(m) ==
   ELSE IF fr.k = "tagbody" /\ x.kind = "go" /\ fr.id = x.target
        THEN LET j == TagIndex(fr.stmts, x.tag) IN Ev(Push(m1, [fr EXCEPT !.i = j]), TagStmt(fr.stmts[j].e), fr.env)
   ELSE IF fr.k = "ignerr" /\ x.kind = "error" THEN Ret(m1, Nil)
+  ELSE IF fr.k = "recover" /\ x.kind = "error"
+       THEN LET m2 == NewFrame([m1 EXCEPT !.mode = "eval"], fr.env, <<[n |-> fr.var, v |-> [k |-> "cond", c |-> x.tag]]>>) IN Ev(m2, fr.on, Top(m2))
   ELSE IF fr.k = "res" THEN [m1 EXCEPT !.res[fr.id] = FALSE]                  \* released on the way out
   ELSE IF fr.k = "protect"
        THEN Body(Push([m1 EXCEPT !.mode = "eval"], [k |-> "after-cleanup", pending |-> TRUE, vals |-> <<>>, ex |-> x]), fr.cleanup, fr.env)
@@ -317,6 +393,8 @@ Step(m) == IF m.mode = "eval" THEN StepEval(m) ELSE IF m.mode = "exit" THEN Step
 RECURSIVE RunToMark(_,_)
 RunToMark(m, n) == IF m.halted \/ Len(m.out) > n THEN m ELSE RunToMark(Step(m), n)
 NoExit == [kind |-> "", target |-> 0, tag |-> "", val |-> <<>>]
-Load(defs, ast) == [mode |-> "eval", node |-> ast, val |-> One(Nil), env |-> 1, kont |-> <<>>, defs |-> defs,
-                    heap |-> << [parent |-> 0, vars |-> <<>>] >>, out |-> <<>>, halted |-> FALSE, nid |-> 1, ex |-> NoExit, res |-> <<>>]
+LoadD(defs, ast, dev) == [mode |-> "eval", node |-> ast, val |-> One(Nil), env |-> 1, kont |-> <<>>, defs |-> defs,
+                    heap |-> << [parent |-> 0, vars |-> <<>>, dyn |-> 0] >>, out |-> <<>>, halted |-> FALSE, nid |-> 1, ex |-> NoExit, res |-> <<>>,
+                    dev |-> dev]
+Load(defs, ast) == LoadD(defs, ast, {})
 =============================================================================
